@@ -276,7 +276,16 @@ func eGenQuery(r *rand.Rand, cmds []database.Command) string {
 		return harvestedQuery(r, r.Intn(1<<20))
 	}
 	switch x := r.Intn(100); {
-	case x < 4:
+	case x < 3 && len(cmds) > 0: // one character of an entry (never an index term: only the typo fallback can answer)
+		t := cmds[r.Intn(len(cmds))].Command
+		if len(t) > 0 {
+			ch := t[r.Intn(len(t))]
+			if ch < 128 && ch > 32 {
+				return []string{string(ch), " " + string(ch) + " "}[r.Intn(2)]
+			}
+		}
+		return "x"
+	case x < 6:
 		return []string{"", " ", "a", "!", "??", "the of", "-", "é"}[r.Intn(8)]
 	case x < 14: // typo / fragment of a command text (fuzzy path)
 		if len(cmds) > 0 {
